@@ -40,10 +40,23 @@ def gen_c02(rnd, sid):
                 derive=({"U%d" % (ncls - 1): "U0"} if ncls >= 2 and rnd.random() < 0.4 else {}))
 
 
+def gen_late(rnd, sid):
+    """a handler of class U0 registers a further handler for class U1 (which has one already) while U1 signals are pending: they reach it too, after the others"""
+    n1 = rnd.randint(1, 2)
+    handlers = [dict(cls="U1", hid=i, data=rnd.choice([None, 7]), scripts=[[]] * 4) for i in range(n1)]
+    late = dict(cls="U1", hid=n1, data=rnd.choice([None, 8]), scripts=[[]] * 6, late=True)
+    reg = dict(cls="U0", hid=n1 + 1, data=None, scripts=[[["reg_handler", n1]], []])
+    init = [["enq", "U1", rnd.choice([0, 1]), None, sid.next()] for _ in range(rnd.randint(0, 2))] + [["enq", "U0", 0, None, sid.next()]] + \
+           [["enq", "U1", rnd.choice([0, 1]), None, sid.next()] for _ in range(rnd.randint(1, 3))]
+    return dict(op="machine", mode="late", width=80, screens=[], handlers=handlers + [late, reg], init=init, stdin=[], quit_cb=None, quit_screen=None,
+                exc_handler=False, run_empty=True, deliver_at=[])
+
+
 def generate(rnd, tier):
     n = 500 if tier == "quick" else 6000
     sid = SidCounter()
     cases = [gen_c02(rnd, sid) for _ in range(n)] + [gen_case(rnd, "loop", sid) for _ in range(n // 2)] + [gen_case(rnd, "app", sid) for _ in range(n // 4)]
+    cases += [gen_late(rnd, sid) for _ in range(n // 20)]
     if tier == "thorough":
         from harness.gen.exhaustive import loop_programs
         cases += list(loop_programs(sid))          # small-scope exhaustive: 3 663 programs
@@ -56,8 +69,9 @@ def monitor(case, obs):
     for i, ev, ctx in x.events():
         if ev[0] == "api" and ev[1] == "enq": sid_cls[ev[5]] = ev[2]
         if ev[0] == "api" and ev[1] == "new_loop": sid_cls[ev[4]] = ev[2]
-    seqs = {}; last = {}
+    seqs = {}; last = {}; first = {}
     for i, ev, ctx in x.events():
+        if ev[0] == "H": first.setdefault(ev[2], i)
         if ev[0] == "H":
             hid, sid, data = ev[1], ev[2], ev[3]
             cls = sid_cls.get(sid)
@@ -67,7 +81,7 @@ def monitor(case, obs):
             seqs.setdefault(sid, []).append(hid); last[sid] = i
     counts = {}
     for sid, seq in seqs.items():
-        exp = x.cls_handlers.get(sid_cls[sid], [])
+        exp = x.handlers_at(sid_cls[sid], first[sid]) if x.late else x.cls_handlers.get(sid_cls[sid], [])      # registered when its dispatch began
         counts[sid] = counts.get(sid, 0) + 1
         if seq[:len(exp)] != exp[:len(seq)] or len(seq) > len(exp):
             # the same signal id is never enqueued twice by the generators, so more invocations than handlers = duplicated delivery
